@@ -152,3 +152,41 @@ pub fn explore<R: Send>(
     });
     stats.into_inner().unwrap()
 }
+
+/// single-threaded variant of `explore` (for use inside an already parallel sweep)
+pub fn explore_seq<R>(bound: usize, max_exec: u64, body: impl Fn(&mut Chooser) -> R, mut sink: impl FnMut(&[u32], R)) -> Stats {
+    let mut st = Stats::default();
+    let mut stack: Vec<(Vec<u32>, Vec<(u32, u32)>)> = vec![(vec![], vec![])];
+    while let Some((prefix, expect)) = stack.pop() {
+        if st.executions >= max_exec {
+            st.capped = true;
+            break;
+        }
+        let plen = prefix.len();
+        let mut ch = Chooser::new(prefix, expect);
+        let r = body(&mut ch);
+        let choices = ch.choices();
+        st.executions += 1;
+        st.choice_points += ch.trace.len() as u64;
+        st.max_depth = st.max_depth.max(ch.trace.len());
+        if let Some(d) = &ch.diverged {
+            if st.divergences.len() < 5 {
+                st.divergences.push(d.clone());
+            }
+        }
+        sink(&choices, r);
+        let devs = ch.trace[..plen.min(ch.trace.len())].iter().filter(|p| p.chosen != 0).count();
+        if devs + 1 <= bound {
+            for i in (plen..ch.trace.len()).rev() {
+                let p = &ch.trace[i];
+                for alt in (1..p.arity).rev() {
+                    let mut np: Vec<u32> = choices[..i].to_vec();
+                    np.push(alt);
+                    let ne: Vec<(u32, u32)> = ch.trace[..=i].iter().map(|p| (p.label, p.arity)).collect();
+                    stack.push((np, ne));
+                }
+            }
+        }
+    }
+    st
+}
